@@ -456,6 +456,53 @@ theorem upd_markLoopVar_newer {h0 h : Heap} (hu : h0.Upd h) {t : Nat} (ht : h0.s
   simp only [parentAt, declares, varsAt, markLoopVar, Array.getElem?_modify, hit, if_false] at this ⊢
   exact this
 
+/-- changing anything but the parent and the variables of a scope is an `Upd` step -/
+theorem upd_modify_keep (h : Heap) (j : Nat) (f : Scope → Scope)
+    (hf : ∀ sc, (f sc).parent = sc.parent ∧ (f sc).vars = sc.vars) : h.Upd (h.modify j f) := by
+  refine ⟨by simp, fun i _ => ?_⟩
+  by_cases hji : j = i
+  · subst hji
+    simp only [parentAt, declares, varsAt, Array.getElem?_modify, if_true]
+    cases h[j]? with
+    | none => simp
+    | some sc => simp [(hf sc).1, (hf sc).2]
+  · simp [parentAt, declares, varsAt, Array.getElem?_modify, hji]
+
+theorem upd_markGhosts (h : Heap) (t : Nat) (x : Name) : h.Upd (markGhosts h t x) := by
+  unfold markGhosts
+  generalize ghostScopes h ((chain h t).drop 1) = l
+  induction l generalizing h with
+  | nil => exact Heap.Upd.refl h
+  | cons j r ih =>
+    simp only [List.foldl_cons]
+    refine Heap.Upd.trans (upd_modify_keep h j _ ?_) (ih _)
+    intro sc
+    split <;> simp
+
+theorem findTarget_declares (h : Heap) (x : Name) : ∀ (fuel cur : Nat) (af : Bool) (t : Nat),
+    findTarget h x fuel cur af = some t → declares h x t = true := by
+  intro fuel
+  induction fuel with
+  | zero => intro cur af t ht; simp [findTarget] at ht
+  | succ f ih =>
+    intro cur af t ht
+    rw [findTarget] at ht
+    cases hs : h[cur]? with
+    | none => simp [hs] at ht
+    | some sc =>
+      simp only [hs] at ht
+      by_cases hd : (getAssoc x sc.vars).isSome = true
+      · simp only [hd, if_true] at ht
+        by_cases hc : (sc.parent.isNone && !af) = true
+        · simp [hc] at ht
+        · simp only [hc, Bool.false_eq_true, if_false, Option.some.injEq] at ht
+          subst ht
+          simp [declares, varsAt, hs, hd]
+      · simp only [hd, Bool.false_eq_true, if_false] at ht
+        cases hp : sc.parent with
+        | none => simp [hp] at ht
+        | some p => simp only [hp] at ht; exact ih p _ t ht
+
 /-- assigning to a variable the scope already declares is an `Upd` step -/
 theorem upd_insertAt_declared (h : Heap) (t : Nat) (x : Name) (v : V) (hd : declares h x t = true) :
     h.Upd (insertAt h t x v) := by
@@ -467,5 +514,26 @@ theorem upd_insertAt_declared (h : Heap) (t : Nat) (x : Name) (v : V) (hd : decl
     · subst hy; simpa [getAssoc_setAssoc_self, declares] using hd.symm
     · rw [getAssoc_setAssoc_ne hy]
   · simp [declares, varsAt, getElem?_insertAt_ne h hit]
+
+/-- **any non-`!global` assignment executed in a scope newer than `h0` is an `Upd h0` step**
+(any flags): it lands in the executing scope itself or in a scope that already declares the name -/
+theorem upd_setVariable_local {h0 h : Heap} (hu : h0.Upd h) (q : ScopeQuirks) {s : Nat} (hs : h0.size ≤ s)
+    (x : Name) (v : V) (dflt : Bool) : h0.Upd (setVariable q h s x v dflt false) := by
+  unfold setVariable
+  generalize (dflt && match lookup h s x with
+                      | none => false
+                      | some w => !w.isNull) = c
+  cases c with
+  | true => exact hu
+  | false =>
+    simp only [Bool.false_eq_true, if_false]
+    by_cases hl : q.localAt (kindAt h s) = true
+    · rw [if_pos hl]; exact upd_insertAt_newer hu hs x v
+    · rw [if_neg hl]
+      unfold specTarget
+      cases ht : findTarget h x (s + 1) s true with
+      | none => exact upd_insertAt_newer hu hs x v
+      | some t =>
+        exact Heap.Upd.trans hu (upd_insertAt_declared h t x v (findTarget_declares h x _ _ _ t ht))
 
 end Core
